@@ -1601,3 +1601,51 @@ def play_reorder_after_restart(choices: list[Any], fanout: int = 3) -> Callable[
         w.processor._check_dlq()
 
     return play
+
+
+def cancel_crash_run(workload: str, j_sym: Any, k_sym: Any, max_k: int = 14) -> bool:
+    """C17 under a crash: the cancel request is accepted before step j; the worker is killed at its
+    k-th durable commit after that (the CancelWorkflow handler's flag commit, its fan-out commit,
+    the CancelStage handlers, ...), restarted with a recovery sweep, and drained.  Oracle: post_cancel."""
+    with hx.Path("cancel_crash:" + workload) as P:
+        with hx.native():
+            w = World()
+            try:
+                w.submit(WORKLOADS[workload]())
+                steps = 0
+                while steps < 80 and not hx.decide_eq(j_sym, steps):
+                    if not w.step_fifo():
+                        break
+                    steps += 1
+                inject_cancel(w)
+                base = HOOKS.commits
+                crashed: list[Any] = []
+
+                def hook(conn: Any) -> None:
+                    n = HOOKS.commits - base
+                    if n <= max_k and hx.decide_eq(k_sym, n):
+                        crashed.append((n, commit_site()))
+                        HOOKS.dead = True
+                        raise Crash()
+
+                HOOKS.on_commit = hook
+                try:
+                    w.drain()
+                except Crash:
+                    pass
+                HOOKS.on_commit = None
+                if crashed:
+                    w.restart()
+                    w.processor.run_recovery()
+                    w.drain()
+                snap = w.snapshot()
+                if not crashed:
+                    return True
+                P.reached("%s step %d commit %d" % (workload, steps, crashed[0][0]), {"workload": workload, "cancel_before_step": steps, "crash_commit_after_cancel": crashed[0][0], "site": crashed[0][1]})
+                bad = post_cancel(w, snap, {"injected": [1]})
+                if bad is not None:
+                    return P.fail("C17/cancel_crash/%s/%s@%s" % (workload, bad[0], crashed[0][1]), {"workload": workload, "cancel_before_step": steps, "crash_commit_after_cancel": crashed[0][0], "site": crashed[0][1], "detail": bad[1]})
+                return True
+            finally:
+                HOOKS.on_commit = None
+                w.close()
